@@ -45,7 +45,7 @@ func FuzzDecode(f *testing.F) {
 		e := tb[int(data[0])%len(tb)]
 		input := data[1:]
 		for _, validate := range []bool{false, true} {
-			var out serixgen.Outcome
+			out := e.Case.Decode(input, validate) // warm-up, see TestDecodeTotalBounded
 			alloc := measure(func() { out = e.Case.Decode(input, validate) })
 			if out.Panic != nil {
 				t.Fatalf("Decode panicked: %v\nschema %s\ninput %x validate=%v", out.Panic, e.Case.Root, input, validate)
